@@ -22,8 +22,9 @@ def load_known():
 def assert_repo():
     import forsys
     p = os.path.realpath(forsys.__file__)
-    if not p.startswith("/repo/"):
-        raise HarnessError("forsys imported from %s, not from /repo" % p)
+    root = os.path.realpath(os.environ.get("FORSYS_REPO", "/repo")) + "/"
+    if not p.startswith(root):
+        raise HarnessError("forsys imported from %s, not from %s" % (p, root))
 
 
 def write_violation(pid, v, tier, seed):
